@@ -369,7 +369,7 @@ impl DiffOp {
     /// Apply this operation to a diff hook.
     pub fn apply_to_hook<D: DiffHook>(&self, d: &mut D) -> (res: Result<(), D::Error>)
     /*@*/     requires hook_pre(*old(d), ev_of(*self)), *self is Replace ==> (*old(d)).accepts_replace(),
-    /*@*/     ensures hook_frame(*old(d), *final(d), res), (*final(d)).fobs() == (*old(d)).fobs(),
+    /*@*/     ensures hook_frame(*old(d), *final(d), res), (*final(d)).fobs() == (*old(d)).fobs(), (*final(d)).config() == (*old(d)).config(),
     /*@*/         res.is_ok() ==> (*final(d)).trace() == applied_trace::<D>((*old(d)).trace(), *self),
     /*@*/         res.is_ok() ==> (*final(d)).rely_st() == step_rel((*old(d)).rely_rel(), (*old(d)).rely_st(), ev_of(*self)),
     {
